@@ -53,6 +53,18 @@ pub enum RespDatum {
     Block(B),
     Chr(B),
     Expr(B),
+    /// a block of this many pattern bytes (see `big_block`): lengths at the digit-count
+    /// boundaries of the block header without carrying megabytes around in the case
+    BigBlock(u32),
+    /// this many separate data elements (`i % 251` as u8) in one response unit
+    ManyU8(u32),
+}
+
+/// `n` pattern bytes with a static lifetime, built once per distinct `n`.
+pub fn big_block(n: u32) -> &'static [u8] {
+    static CACHE: std::sync::OnceLock<std::sync::Mutex<std::collections::HashMap<u32, &'static [u8]>>> = std::sync::OnceLock::new();
+    let mut m = CACHE.get_or_init(Default::default).lock().unwrap();
+    m.entry(n).or_insert_with(|| Box::leak((0..n).map(|i| (i.wrapping_mul(31) >> 3) as u8).collect::<Vec<u8>>().into_boxed_slice()))
 }
 
 impl RespDatum {
@@ -70,6 +82,15 @@ impl RespDatum {
                 out.push(b'(');
                 out.extend_from_slice(s);
                 out.push(b')');
+            }
+            RespDatum::BigBlock(n) => out.extend_from_slice(&crate::model::resp::encode_block(big_block(*n))),
+            RespDatum::ManyU8(n) => {
+                for i in 0..*n {
+                    if i > 0 {
+                        out.push(b',');
+                    }
+                    out.extend_from_slice(((i % 251) as u8).to_string().as_bytes());
+                }
             }
         }
     }
@@ -110,6 +131,11 @@ pub struct UnitPlan {
     pub headers: Vec<B>,
     pub respond: Vec<RespDatum>,
     pub fail: Option<ErrSpec>,
+    /// the handler does not propagate an error of a raw parameter pull: it stops pulling
+    /// and carries on (legal: "optional parameter, else default"). A lexical error must
+    /// abort the message all the same (C05).
+    #[serde(default)]
+    pub swallow: bool,
 }
 
 impl UnitPlan {
@@ -312,6 +338,7 @@ impl Rec {
     }
 
     fn run_plan(&self, dev: &mut LogDev, k: usize, plan: &UnitPlan, params: &mut Parameters, response: Option<ResponseUnit>) -> Result<()> {
+        let mut swallowed = false;
         for p in &plan.pulls {
             match &p.as_ {
                 PullAs::DataI32 | PullAs::DataF64 | PullAs::DataBool | PullAs::DataBytes => {
@@ -362,13 +389,17 @@ impl Rec {
                         Err(e) => {
                             note_error(dev, "next_token", &e);
                             dev.calls[k].results.push(PullResult::Error(e.get_code(), e.get_extended().map(|x| x.to_vec())));
+                            if plan.swallow {
+                                swallowed = true;
+                                break;
+                            }
                             return Err(e);
                         }
                     }
                 }
             }
         }
-        if plan.greedy {
+        if plan.greedy && !swallowed {
             loop {
                 match params.next_optional_token() {
                     Ok(Some(t)) => {
@@ -379,6 +410,9 @@ impl Rec {
                     Err(e) => {
                         note_error(dev, "next_optional_token", &e);
                         dev.calls[k].results.push(PullResult::Error(e.get_code(), e.get_extended().map(|x| x.to_vec())));
+                        if plan.swallow {
+                            break;
+                        }
                         return Err(e);
                     }
                 }
@@ -401,6 +435,13 @@ impl Rec {
                     RespDatum::Block(s) => resp.data(Arbitrary(&s[..])),
                     RespDatum::Chr(s) => resp.data(Character(&s[..])),
                     RespDatum::Expr(s) => resp.data(Expression(&s[..])),
+                    RespDatum::BigBlock(n) => resp.data(Arbitrary(big_block(*n))),
+                    RespDatum::ManyU8(n) => {
+                        for i in 0..*n {
+                            resp.data((i % 251) as u8);
+                        }
+                        &mut resp
+                    }
                 };
             }
             return resp.finish();
